@@ -73,6 +73,9 @@ def make_node(i, s, inst):
 
     body.__name__ = body.__qualname__ = "n%d" % i
     kw = dict(priority=s["prio"], debug=s["debug"], setup=s["setup"])
+    if s.get("res"):
+        from tawazi import Resource as _R
+        kw["resource"] = dict(t=_R.thread, a=_R.async_thread, m=_R.main_thread)[s["res"]]
     if s["tag"] is not None and not s.get("tag_at_call"):
         kw["tag"] = s["tag"]
     return xn(body, **kw)
